@@ -367,6 +367,16 @@ def guard_defs(body):
                 ty = body.locals[a1["p"]["l"]]["ty"]
                 if ty.get("k") == "closure":
                     clos = ty["path"]
+                elif not a1["p"].get("proj"):
+                    # a function item held in a local
+                    d = body.single_def(a1["p"]["l"])
+                    if d and d[0] == "stmt" and d[3]["k"] == "assign" and d[3]["rv"]["k"] == "use":
+                        a1 = d[3]["rv"]["op"]
+            if a1["k"] == "const" and isinstance(a1.get("fn"), dict) and a1["fn"].get("k") == "fn":
+                # the drop function is a named function (`guard(value, helper)`): its body plays the closure's role
+                fp = a1["fn"].get("resolved", a1["fn"].get("path"))
+                if fp in body.facts.bodies:
+                    clos = fp
             out.append({"bb": i, "local": t["dest"]["l"], "roots": roots, "closure": clos, "target": t.get("target")})
     return out
 
